@@ -45,6 +45,10 @@ CHECKS["C09"] = dict(technique="property-based testing with structured mutations
                      note="Trusted: reference curve arithmetic; the greater-flag convention is taken from the library's own encoder.",
                      ref="DESIGN.md section 4, C09")
 
+CHECKS["C10"] = dict(technique="property-based testing: reference try-and-increment (Legendre by exponentiation) and masked single reduction as oracles, membership predicates by reference [r]P, structured random streams forcing rejections, cross-back-end determinism",
+                     note="Trusted: reference field/curve arithmetic. The choice between the two roots y is not constrained.",
+                     ref="DESIGN.md section 4, C10")
+
 PENDING = {}
 
 
